@@ -19,6 +19,7 @@ from .analyze_tags import InnerTagMap
 from .analyze_tags import TagAnalysis
 from .builtin import DictLoader
 from .exceptions import BlockNestingError
+from .exceptions import ContextDepthError
 from .exceptions import LiquidError
 from .exceptions import LiquidSyntaxError
 from .exceptions import TemplateInheritanceError
@@ -283,6 +284,14 @@ class Environment:
         except (LiquidSyntaxError, TemplateInheritanceError, BlockNestingError) as err:
             err.template_name = path
             raise err
+        except RecursionError as err:
+            # Most likely a partial template being parsed deep inside a recursive
+            # include or render. As a `ContextDepthError` it unwinds to the root
+            # template in every mode, instead of being suppressed at each level.
+            raise ContextDepthError(
+                "maximum recursion depth reached, possible recursive include",
+                token=None,
+            ) from err
         except Exception as err:  # noqa: BLE001
             raise LiquidError("unexpected liquid parsing error", token=None) from err
         return self.template_class(
